@@ -9,24 +9,28 @@ from extras import pod_features, macro_lab_c15, macro_lab_c18, macro_lab_c19
 
 PROPS = {
     "C01": {
+        "harness_feature": "f_tlv",
         "lean_module": "SplProofs.C01",
         "streams": ["C01"],
         "rule": "stream tlvhist: histories from a zeroed buffer (sizes 0..300, weighted to exact fit and +-1..12 around it) over an adversarial 8-tag palette and value sizes 0/1/3/5(non-zero default)/8/32 and variable lengths: alloc +-repetition, init_value, realloc to 0 / same / exact fit / fit+1 / > u32::MAX, byte and typed writes through the mutable views, var-len pack (streaming packer), alloc_and_pack, lookups (incl. the get_first_* / *_first_* wrappers for repetition 0), get_discriminators, reopen through the three views; the generator steers towards failing operations at every state; plus special cases outside the line protocol's buffers: entries whose length needs the 3rd/4th length byte (up to 16 MiB) and a 4 GiB zeroed buffer for the length-not-representable failure; after every op the raw buffer, returned slice range (pointer arithmetic) and repetition number are compared with the model and with a shadow Vec<(tag, Vec<u8>)> + independent canonical encoder;  non-trivial = history with >= 2 successful mutations on >= 2 entries and a resize/write that is not on the last entry",
         "assumptions": COMMON_ASSUME + ["type tags are 8-byte non-zero discriminators", "typed reads/writes use align-1 Pod types"],
     },
     "C03": {
+        "harness_feature": "f_tlv",
         "lean_module": "SplProofs.C03",
         "streams": ["C03"],
         "rule": "stream tlvhist: histories from a zeroed buffer (sizes 0..300, weighted to exact fit and +-1..12 around it) over an adversarial 8-tag palette and value sizes 0/1/3/5(non-zero default)/8/32 and variable lengths: alloc +-repetition, init_value, realloc to 0 / same / exact fit / fit+1 / > u32::MAX, byte and typed writes through the mutable views, var-len pack (streaming packer), alloc_and_pack, lookups (incl. the get_first_* / *_first_* wrappers for repetition 0), get_discriminators, reopen through the three views; the generator steers towards failing operations at every state; plus special cases outside the line protocol's buffers: entries whose length needs the 3rd/4th length byte (up to 16 MiB) and a 4 GiB zeroed buffer for the length-not-representable failure; after every op the raw buffer, returned slice range (pointer arithmetic) and repetition number are compared with the model and with a shadow Vec<(tag, Vec<u8>)> + independent canonical encoder;  raw bytes compared byte-for-byte with an independent encoder of the logical entry list after every step; non-trivial as C01",
         "assumptions": COMMON_ASSUME + ["type tags are 8-byte non-zero discriminators"],
     },
     "C04": {
+        "harness_feature": "f_tlv",
         "lean_module": "SplProofs.C04",
         "streams": ["C04"],
         "rule": "stream tlvhist: histories from a zeroed buffer (sizes 0..300, weighted to exact fit and +-1..12 around it) over an adversarial 8-tag palette and value sizes 0/1/3/5(non-zero default)/8/32 and variable lengths: alloc +-repetition, init_value, realloc to 0 / same / exact fit / fit+1 / > u32::MAX, byte and typed writes through the mutable views, var-len pack (streaming packer), alloc_and_pack, lookups (incl. the get_first_* / *_first_* wrappers for repetition 0), get_discriminators, reopen through the three views; the generator steers towards failing operations at every state; plus special cases outside the line protocol's buffers: entries whose length needs the 3rd/4th length byte (up to 16 MiB) and a 4 GiB zeroed buffer for the length-not-representable failure; after every op the raw buffer, returned slice range (pointer arithmetic) and repetition number are compared with the model and with a shadow Vec<(tag, Vec<u8>)> + independent canonical encoder;  plus histories that start from openable but non-canonical buffers (entries, terminator, garbage); non-trivial = history that reaches a state with >= 1 entry and executes >= 1 failing mutation there",
         "assumptions": COMMON_ASSUME + ["type tags are 8-byte non-zero discriminators"],
     },
     "C02": {
+        "harness_feature": "f_tlv",
         "lean_module": "SplProofs.C02",
         "streams": ["C02"],
         "rule": "stream tlvq: zero/random strings of every length 0..13, and structured mutants of valid encodings over an adversarial tag palette (shared 7-byte prefix, leading/trailing zero "
@@ -36,6 +40,7 @@ PROPS = {
         "assumptions": COMMON_ASSUME + ["typed reads use align-1 Pod types (the crate's convention)"],
     },
     "C05": {
+        "harness_feature": "f_resolve",
         "lean_module": "SplProofs.C05",
         "extra_modules": ["SplProofs.C05Source"],
         "streams": ["C05"],
@@ -47,6 +52,7 @@ PROPS = {
         "assumptions": COMMON_ASSUME,
     },
     "C06": {
+        "harness_feature": "f_resolve",
         "lean_module": "SplProofs.C06",
         "streams": ["C06"],
         "rule": "stream privileges: scenarios over a 6-key world (so fixed keys collide with existing metas and extra keys repeat): instructions with 0..5 metas (one scenario in thirty: 253..258 metas) with duplicate keys and mixed flags, stored lists of 0..5 configs of every kind built through the real init (sometimes with one corrupted byte), instruction data 0..80 bytes;  off-chain helper with a fetch map (present / absent accounts) and CPI helper with initial infos mirroring the metas and a shuffled pool; oracle = the four privilege "
@@ -55,6 +61,7 @@ PROPS = {
         "assumptions": COMMON_ASSUME,
     },
     "C07": {
+        "harness_feature": "f_resolve",
         "lean_module": "SplProofs.C07",
         "streams": ["C07"],
         "rule": "stream check-infos: scenarios over a 6-key world (so fixed keys collide with existing metas and extra keys repeat): instructions with 0..5 metas (one scenario in thirty: 253..258 metas) with duplicate keys and mixed flags, stored lists of 0..5 configs of every kind built through the real init (sometimes with one corrupted byte), instruction data 0..80 bytes;  accepted account lists (each config resolved against the final list, incl. forward references) and every single-field mutation of them: one key, one signer flag, one "
@@ -64,6 +71,7 @@ PROPS = {
         "assumptions": COMMON_ASSUME,
     },
     "C08": {
+        "harness_feature": "f_resolve",
         "lean_module": "SplProofs.C08",
         "streams": ["C08"],
         "rule": "stream offchain-vs-cpi: scenarios over a 6-key world (so fixed keys collide with existing metas and extra keys repeat): instructions with 0..5 metas (one scenario in thirty: 253..258 metas) with duplicate keys and mixed flags, stored lists of 0..5 configs of every kind built through the real init (sometimes with one corrupted byte), instruction data 0..80 bytes;  both helpers run on the same scenario (fetcher = the data the infos hold), pool = a random permutation of the world's accounts, sometimes incomplete or with a duplicate; "
@@ -72,6 +80,7 @@ PROPS = {
         "assumptions": COMMON_ASSUME + ["precondition of the property: initial infos mirror the instruction's metas; the fetcher returns the data the infos hold"],
     },
     "C09": {
+        "harness_feature": "f_listview",
         "lean_module": "SplProofs.C09",
         "extra_modules": ["SplProofs.C09Source"],
         "streams": ["C09"],
@@ -81,6 +90,7 @@ PROPS = {
         "assumptions": COMMON_ASSUME + ["capacity < usize::MAX (buffers are smaller than the address space)"],
     },
     "C10": {
+        "harness_feature": "f_listview",
         "lean_module": "SplProofs.C10",
         "extra_modules": ["SplProofs.C10Source"],
         "streams": ["C10"],
@@ -90,6 +100,7 @@ PROPS = {
         "assumptions": COMMON_ASSUME + ["element alignment <= 16 in the stream (the theorem covers every alignment up to 2^29)"],
     },
     "C11": {
+        "harness_feature": "f_seeds",
         "lean_module": "SplProofs.C11",
         "extra_modules": ["SplProofs.C11Source"],
         "streams": ["C11"],
@@ -100,6 +111,7 @@ PROPS = {
         "assumptions": COMMON_ASSUME,
     },
     "C12": {
+        "harness_feature": "f_resolve",
         "lean_module": "SplProofs.C12",
         "streams": ["C12"],
         "rule": "stream metalist: histories of init / update / read over 1..3 instruction discriminators (adversarial tag palette), list lengths 0..7, buffers of the advertised size -1 / exact / +slack, "
@@ -109,6 +121,7 @@ PROPS = {
         "assumptions": COMMON_ASSUME + ["lists have fewer than 2^26 configs"],
     },
     "C13": {
+        "harness_feature": "f_pod",
         "lean_module": "SplProofs.C13",
         "streams": ["C13"],
         "extra": [pod_features],
@@ -120,6 +133,7 @@ PROPS = {
         "assumptions": COMMON_ASSUME + ["Pod integer types are align-1 wrappers of [u8; k] (checked by the cast stream at arbitrary addresses)"],
     },
     "C14": {
+        "harness_feature": "f_pod",
         "lean_module": "SplProofs.C14",
         "streams": ["C14"],
         "rule": "stream podoption: T = Address (none value, all 256 single-bit patterns, values differing from the none marker only in a late byte, random) and "
@@ -129,6 +143,7 @@ PROPS = {
         "assumptions": COMMON_ASSUME,
     },
     "C18": {
+        "harness_feature": "f_disc",
         "lean_module": "SplProofs.C18",
         "streams": ["C18"],
         "extra": [macro_lab_c18],
@@ -140,6 +155,7 @@ PROPS = {
         "assumptions": COMMON_ASSUME,
     },
     "C19": {
+        "harness_feature": "f_errs",
         "lean_module": "SplProofs.C19",
         "streams": ["C19"],
         "extra": [macro_lab_c19],
@@ -149,6 +165,7 @@ PROPS = {
         "assumptions": COMMON_ASSUME,
     },
     "C15": {
+        "harness_feature": "f_varlen",
         "lean_module": "SplProofs.C15",
         "streams": ["C15"],
         "extra": [macro_lab_c15],
@@ -163,6 +180,7 @@ PROPS = {
         "assumptions": COMMON_ASSUME + ["type tags are 8-byte non-zero discriminators", "account data is smaller than 2^64 - 1 bytes"],
     },
     "C16": {
+        "harness_feature": "f_token",
         "lean_module": "SplProofs.C16",
         "streams": ["C16"],
         "rule": "stream tokref: states packed by spl-token-interface / spl-token-2022-interface (base, marker+arbitrary tail, real extensions), "
@@ -172,6 +190,7 @@ PROPS = {
         "assumptions": COMMON_ASSUME + ["Token-2022 acceptance is StateWithExtensions::<S>::unpack (base unpack + account-type byte; no TLV walk, as in the interface crate)"],
     },
     "C17": {
+        "harness_feature": "f_token",
         "lean_module": "SplProofs.C17",
         "extra_modules": ["SplProofs.C17Source"],
         "streams": ["C17"],
